@@ -72,9 +72,11 @@ impl BufferParser for Parser {
                     }
                     3 => {
                         caret.pos.y = max(0, caret.pos.y - 1);
+                        buf.terminal_state.limit_caret_pos(buf, caret);
                     }
                     4 => {
                         caret.pos.y += 1;
+                        buf.terminal_state.limit_caret_pos(buf, caret);
                     }
 
                     5 => {
@@ -82,6 +84,7 @@ impl BufferParser for Parser {
                     }
                     6 => {
                         caret.pos.x = min(79, caret.pos.x + 1);
+                        buf.terminal_state.limit_caret_pos(buf, caret);
                     }
                     7 => {
                         return Err(ParserError::Description("todo: avt cleareol").into());
